@@ -2,7 +2,8 @@
     Only statements; proofs are in Proofs/DumpProofs.v.  Model: Model/Dump.v. *)
 From Coq Require Import String Ascii QArith Permutation Sorted.
 From Coq Require Import List.
-From Cooler Require Import Model.Dump Proofs.PixelsProofs Proofs.DumpProofs Proofs.DumpSpansProofs.
+From Cooler Require Import Model.Dump Proofs.PixelsProofs Proofs.DumpProofs Proofs.DumpSpansProofs Proofs.DumpIntegration.
+From Cooler Require Model.Query Model.Index Proofs.QueryProofs Proofs.SpansProofs Proofs.IndexProofs.
 Open Scope Z_scope.
 
 (** dump_eq_query (direct engine): for every option setting, every row-sorted stored table and EVERY admissible
@@ -271,6 +272,154 @@ Theorem C16_parse_field_param_zero_refused : forall name agg,
 Proof. exact parse_field_param_zero_refused. Qed.
 Print Assumptions C16_parse_field_param_zero_refused.
 
+(* ---------------------------------------------------------------- integration with C03 (real get_spans) and C02 (schema) *)
+(** the edge list of CSRReader.get_spans as modelled in Model/Query.v (arg_prune_partition, every chunk size k >= 1) is
+    an admissible chunking for the dump's engine model; [OffsetsFor px n off]: off[i] = #records with bin1 < i, i = 0..n *)
+Theorem C16_get_spans_admissible : forall px n off k i0 i1 j0 j1,
+  OffsetsFor px n off -> 1 <= k -> 0 <= i0 -> i0 <= i1 -> i1 <= n ->
+  Query.get_spans off k (i0, i1, j0, j1) = spans_of (get_edges off k (i0, i1, j0, j1)) /\
+  AdmissibleCuts px (i0, i1, j0, j1) (get_edges off k (i0, i1, j0, j1)).
+Proof. intros. split; [apply get_spans_edges|now apply (get_edges_admissible px n)]. Qed.
+Print Assumptions C16_get_spans_admissible.
+
+(** dump_eq_query (direct engine) for EVERY -k >= 1, no admissibility hypothesis *)
+Theorem C16_dump_direct_every_chunksize : forall c o n off k,
+  o_fill o && d_symm c = false ->
+  RowSorted (d_px c) -> OffsetsFor (d_px c) n off -> BoxIn n (bbox_of c o) -> 1 <= k ->
+  dump_pixels c o (get_edges off k) =
+    if o_balanced o && no_weights c then None
+    else match Query.get_spans off k (bbox_of c o) with
+         | [] => Some []
+         | _ :: _ =>
+             match annot_chunk c o (window_select (d_px c) (bbox_of c o)) with
+             | None => None
+             | Some rows =>
+                 match o_header o, header_of c o with
+                 | true, Some h => Some (Header h :: body_of rows)
+                 | _, _ => Some (body_of rows)
+                 end
+             end
+         end.
+Proof. exact dump_direct_every_chunksize. Qed.
+Print Assumptions C16_dump_direct_every_chunksize.
+
+(** dump_eq_query (fill-lower engine) for EVERY -k >= 1 *)
+Theorem C16_fill_every_chunksize : forall px n off k i0 i1 j0 j1,
+  Upper px -> NoDup px -> RowSorted px -> OffsetsFor px n off -> BoxIn n (i0, i1, j0, j1) -> 1 <= k ->
+  exists chunks, fill_chunks px (i0, i1, j0, j1) (get_edges off k) = Some chunks /\
+    Permutation (concat chunks) (fill_spec px (i0, i1, j0, j1)) /\ NoDup (concat chunks).
+Proof. exact fill_every_chunksize. Qed.
+Print Assumptions C16_fill_every_chunksize.
+
+(** the dump's engine model and the engines of Model/Query.v (C03) agree on every stored table and chunk size:
+    direct = same list; fill-lower = rearrangements of one another *)
+Theorem C16_direct_engine_agrees_with_C03 : forall px n off k i0 i1 j0 j1,
+  QueryProofs.ValidCSR n (Query.epx_of px) off -> RowSorted px -> OffsetsFor px n off ->
+  1 <= k -> 0 <= i0 -> i0 <= i1 -> i1 <= n ->
+  concat (direct_chunks px (i0, i1, j0, j1) (get_edges off k))
+  = map snd (Query.direct_query (Query.epx_of px) off (Query.get_spans off k) (i0, i1, j0, j1)).
+Proof. exact direct_engine_agrees. Qed.
+Print Assumptions C16_direct_engine_agrees_with_C03.
+
+Theorem C16_fill_engine_agrees_with_C03 : forall px n off k i0 i1 j0 j1,
+  QueryProofs.ValidCSR n (Query.epx_of px) off -> Upper px -> NoDup px -> RowSorted px -> OffsetsFor px n off ->
+  BoxIn n (i0, i1, j0, j1) -> 1 <= k ->
+  exists chunks out,
+    fill_chunks px (i0, i1, j0, j1) (get_edges off k) = Some chunks /\
+    Query.fill_lower_query (Query.epx_of px) off (Query.get_spans off k) (i0, i1, j0, j1) = Some out /\
+    Permutation (concat chunks) (map snd out).
+Proof. exact fill_engine_agrees. Qed.
+Print Assumptions C16_fill_engine_agrees_with_C03.
+
+(** the real get_spans yields a span iff a stored record lies in the row range of a non-degenerate box, for every -k
+    (the exact condition of finding D18: no chunk -> no header) *)
+Theorem C16_get_spans_nonempty_iff_pixel : forall px n off k i0 i1 j0 j1,
+  OffsetsFor px n off -> 1 <= k -> 0 <= i0 -> i0 <= i1 -> i1 <= n ->
+  (Query.get_spans off k (i0, i1, j0, j1) <> [] <->
+   degenerate (i0, i1, j0, j1) = false /\ exists p, In p px /\ i0 <= row p < i1).
+Proof. exact get_spans_nonempty_iff_pixel. Qed.
+Print Assumptions C16_get_spans_nonempty_iff_pixel.
+
+(** C16 over C02: every collection satisfying the published schema (IndexProofs.ValidCSR), every option setting, every
+    window inside the bin table, EVERY -k >= 1: dump rows = annotated stored records in the window in storage order,
+    resp. (with -f on a symmetric-upper collection) the annotated rearrangement of the symmetric completion in the window *)
+Theorem C16_stored_collection_dump : forall (c : Index.cooler) (dc : dcooler) o k,
+  IndexProofs.ValidCSR c -> Describes dc c -> BoxIn (Index.nbins c) (bbox_of dc o) -> 1 <= k ->
+  let cuts := get_edges (Index.bin1_offset c) k in
+  (o_fill o && d_symm dc = false ->
+     dump_pixels dc o cuts =
+       if o_balanced o && no_weights dc then None
+       else match Query.get_spans (Index.bin1_offset c) k (bbox_of dc o) with
+            | [] => Some []
+            | _ :: _ =>
+                match annot_chunk dc o (window_select (Index.pixels_of c) (bbox_of dc o)) with
+                | None => None
+                | Some rows =>
+                    match o_header o, header_of dc o with
+                    | true, Some h => Some (Header h :: body_of rows)
+                    | _, _ => Some (body_of rows)
+                    end
+                end
+            end) /\
+  (o_fill o && d_symm dc = true ->
+     exists chunks,
+       engine_chunks dc o cuts = Some chunks /\
+       Permutation (concat chunks) (fill_spec (Index.pixels_of c) (bbox_of dc o)) /\ NoDup (concat chunks) /\
+       dump_pixels dc o cuts =
+         if o_balanced o && no_weights dc then None
+         else match chunks with
+              | [] => Some []
+              | _ :: _ =>
+                  match annot_chunk dc o (concat chunks) with
+                  | None => None
+                  | Some rows =>
+                      match o_header o, header_of dc o with
+                      | true, Some h => Some (Header h :: body_of rows)
+                      | _, _ => Some (body_of rows)
+                      end
+                  end
+              end).
+Proof. exact stored_collection_dump. Qed.
+Print Assumptions C16_stored_collection_dump.
+
+Theorem C16_stored_collection_dump_chunksize_independent : forall (c : Index.cooler) (dc : dcooler) o k1 k2,
+  IndexProofs.ValidCSR c -> Describes dc c -> BoxIn (Index.nbins c) (bbox_of dc o) -> 1 <= k1 -> 1 <= k2 ->
+  o_fill o && d_symm dc = false ->
+  dump_pixels dc o (get_edges (Index.bin1_offset c) k1) = dump_pixels dc o (get_edges (Index.bin1_offset c) k2).
+Proof. exact stored_collection_dump_chunksize_independent. Qed.
+Print Assumptions C16_stored_collection_dump_chunksize_independent.
+
+(** the same for EVERY admissible cut function in place of the exact-arithmetic linspace (numpy computes the interior
+    cuts in floating point): SpansProofs.AdmissibleCuts = contains lo and hi, all cuts <= hi *)
+Theorem C16_dump_direct_every_cut_sequence : forall c o n off cutsf,
+  (forall seq, StronglySorted Z.le seq -> seq <> [] -> SpansProofs.AdmissibleCuts seq (cutsf seq)) ->
+  o_fill o && d_symm c = false ->
+  RowSorted (d_px c) -> OffsetsFor (d_px c) n off -> BoxIn n (bbox_of c o) ->
+  dump_pixels c o (edges_with cutsf off) =
+    if o_balanced o && no_weights c then None
+    else match SpansProofs.spans_with cutsf off (bbox_of c o) with
+         | [] => Some []
+         | _ :: _ =>
+             match annot_chunk c o (window_select (d_px c) (bbox_of c o)) with
+             | None => None
+             | Some rows =>
+                 match o_header o, header_of c o with
+                 | true, Some h => Some (Header h :: body_of rows)
+                 | _, _ => Some (body_of rows)
+                 end
+             end
+         end.
+Proof. exact dump_direct_every_cut_sequence. Qed.
+Print Assumptions C16_dump_direct_every_cut_sequence.
+
+Theorem C16_fill_every_cut_sequence : forall px n off cutsf i0 i1 j0 j1,
+  (forall seq, StronglySorted Z.le seq -> seq <> [] -> SpansProofs.AdmissibleCuts seq (cutsf seq)) ->
+  Upper px -> NoDup px -> RowSorted px -> OffsetsFor px n off -> BoxIn n (i0, i1, j0, j1) ->
+  exists chunks, fill_chunks px (i0, i1, j0, j1) (edges_with cutsf off) = Some chunks /\
+    Permutation (concat chunks) (fill_spec px (i0, i1, j0, j1)) /\ NoDup (concat chunks).
+Proof. exact fill_every_cut_sequence. Qed.
+Print Assumptions C16_fill_every_cut_sequence.
+
 (* ---------------------------------------------------------------- non-vacuity *)
 Definition ex_cool : dcooler :=
   {| d_bins := [(0,0,10);(0,10,20);(0,20,25);(1,0,10);(1,10,17)]; d_names := ["a";"b"]%string;
@@ -322,3 +471,13 @@ Example ex_C16_D8 :
    | Some s => coo_record s "count" ["0"; "1"; "42"; "x"; "9"]%string
    | None => None end) = Some ((0, 1), 42).
 Proof. vm_compute. split; reflexivity. Qed.
+
+(** the integration hypotheses hold of the concrete cooler, and the real get_spans with -k 1 gives the same dump as the
+    single-span chunking the correspondence run evaluates *)
+Example ex_C16_every_chunksize :
+  let off := Query.offsets_of 5 (d_px ex_cool) in
+  Query.valid_csr_b 5 (Query.epx_of (d_px ex_cool)) off = true /\
+  Query.get_spans off 1 (0, 3, 2, 5) = [(0, 1); (1, 2); (2, 3)] /\
+  dump_pixels ex_cool (ex_opts false (Some ((0, 3), Some (2, 5)))) (get_edges off 1)
+  = dump1 ex_cool (ex_opts false (Some ((0, 3), Some (2, 5)))).
+Proof. vm_compute. repeat split; reflexivity. Qed.
